@@ -1956,3 +1956,28 @@ Q(name="e2_off_path_response_slice", props=["C07"], func=r"connection/mod\.rs:24
   functions=["Connection::poll_transmit (slice: the off-path PATH_RESPONSE datagram)", "PathResponses::pop_off_path (opaque)"], pre=lambda c: "true", post=opr_post,
   bounds="from an arbitrary state: the datagram answering a PATH_CHALLENGE that came from an address other than the current path is padded to N bytes only if N <= 3 * the size recorded for the packet that carried the challenge (the third component pop_off_path returns); slice located through the source text",
   replay=("conn_off_path_challenge_native", lambda m: [dict(n=2), dict(n=5)]))
+
+
+# ------------------------------------------------------------------ C01: defragmenting an ORDERED assembler discards what was already read (first iteration of the trimming loop)
+def dfr_post(c, p):
+    st = p.p.state
+    tm = p.called(r"Buffer::try_mark_defragment$")
+    if not tm:
+        return "true"
+    a = tm[0][1][1]
+    if a[0] != "val":
+        return "false"
+    A = lambda n: "*_1.%d" % c.field("connection/assembler.rs", "Assembler", n)
+    ordered = eq(c.inp(A("state") + "#discr", I64), bv(c.ex.enums["assembler::State"].index("Ordered")))
+    # the first (lowest) buffered chunk is trimmed against the read cursor when reads have been ordered so far: a chunk
+    # that overlaps data the application already has must not survive into unordered mode, where chunks are handed out
+    # as they are; in unordered mode the duplicate filter at insertion already did that and bytes_read is only a count
+    return eq(a[1].t, ite(ordered, c.inp(A("bytes_read"), BV64), bv(0)))
+
+
+Q(name="e2_defragment_frontier", props=["C01"], func=r"assembler\.rs[^>]*>::defragment$",
+  loop_is_stop=True, check_stop=True, allowed_panics=r".", inline=[r"State::is_ordered$"],
+  functions=["Assembler::defragment (up to and including the first iteration of its trimming loop)"],
+  pre=lambda c: ule(c.inp("*_1.%d#discr" % c.field("connection/assembler.rs", "Assembler", "state"), I64), bv(1)), post=dfr_post,
+  bounds="every assembler state: the first try_mark_defragment call - the one for the chunk with the lowest offset - is given the read cursor as its frontier in ordered mode and 0 in unordered mode (the later iterations continue from the previous chunk's end: assembler_defragment_step); heap and sort opaque",
+  replay=("assembler_ordered_then_unordered_native", lambda m: [dict(a=10, o=5, b=10), dict(a=10, o=0, b=20), dict(a=10, o=3, b=4)]))
